@@ -1,2 +1,59 @@
-(* Properties_C01.v -- placeholder, theorems follow *)
-From TP Require Import Term.
+(* Properties_C01.v — C01: attributed text is rendered with exactly the
+   requested attributes and character set.  Statements only; proofs are in
+   P_*.v.  Tie lemmas (Tie_Output, Tie_Charset) are required so that the model's
+   constants are re-checked against the headers whenever this file is built. *)
+From TP Require Import Base Elem Term VT Oracle P_Sync P_Step P_Bytes P_Run Tie_Output Tie_Charset.
+Local Open Scope N_scope.
+
+(* For every behaviour, every reference terminal configuration compatible with
+   it (three wrap modes, bce on/off), every initial terminal at rest (any
+   rendition, cursor, modes, cell contents) and every well-formed history of
+   writes, moves, save/restore, erases, mode switches, titles and size changes:
+   the glyphs the terminal has shown are, in order, exactly the elements
+   streamed - glyph bytes, character set in effect and full rendition - and
+   every byte was glyph payload or part of a complete, known control function. *)
+Theorem C01_rendered :
+  forall (cfg : vtcfg) (beh : behaviour),
+    (b_unicode_all beh = true -> unicode_all cfg = true) ->
+  forall (v0 : vt) (h : list hop),
+    vt0_ok v0 -> wf_hist beh init_tstate h ->
+    let v := snd (hrun cfg beh init_tstate v0 h) in
+    map snd (trace v) = rev (map display_of (hist_elems h)) ++ map snd (trace v0) /\
+    malformed v = false /\ unknown v = false /\ lex v = Ground.
+Proof.
+  intros cfg beh Huni v0 h H0 Hwf v.
+  destruct (sync_hrun cfg beh Huni h init_tstate v0 (sync_init beh v0 H0) Hwf) as [S T].
+  split; [exact T|]. split; [exact (sy_mal _ _ _ S)|]. split; [exact (sy_unk _ _ _ S)|exact (sy_lex _ _ _ S)].
+Qed.
+Print Assumptions C01_rendered.
+
+(* one operation from any state in which belief and terminal agree *)
+Theorem C01_step :
+  forall cfg beh, (b_unicode_all beh = true -> unicode_all cfg = true) ->
+  forall st v o, Sync beh st v -> wf_op st o ->
+    let v' := vt_bytes cfg v (obytes beh st o) in
+    Sync beh (fst (step beh st o)) v' /\
+    (exists tr, placed (fst (ts_size st)) (ts_cur st) (op_elems o) tr /\
+                trace v' = rev tr ++ trace v) /\
+    modes_of v' = op_modes beh v o.
+Proof. exact sync_step. Qed.
+Print Assumptions C01_step.
+
+(* non-vacuity: a concrete history that satisfies the hypotheses and exercises
+   charset, UTF-8, colours, blink, erase and a size change *)
+Definition ex_beh := mkBeh true false true false false.
+Definition ex_hist : list hop :=
+  [HResize (4, 2) (0, 0);
+   HOp (WElem (mkElem (mkGlyph CsDec 113 0 0) (mkAttr (CLow 1) (CHigh 100) IBold true false true)));
+   HOp (Move (3, 1));
+   HOp (WStr [mkElem (mkGlyph CsUtf8 226 152 186) default_attr;
+              mkElem (mkGlyph CsAscii 65 0 0) (mkAttr (CTrue 1 2 3) (CGrey 240) IFaint false true false)]);
+   HOp (Erase ELineLeft); HOp Hide; HOp (Title [104; 105]);
+   HOp (WRaw (mkElem (mkGlyph CsUk 35 0 0) default_attr))].
+Example C01_nonvacuous :
+  vt0_ok vt0_junk /\ wf_hist ex_beh init_tstate ex_hist /\
+  length (hist_elems ex_hist) = 4%nat.
+Proof.
+  split; [repeat split|]. split; [|reflexivity].
+  cbn. repeat split; try reflexivity; discriminate.
+Qed.
